@@ -48,7 +48,7 @@ func GetHardwareDetailsFromCertificate(certificate *x509.Certificate) (*Hardware
 			}
 
 			for _, value := range seq {
-				if value.Tag == sanTagDirectoryName {
+				if value.Class == asn1.ClassContextSpecific && value.Tag == sanTagDirectoryName {
 					var name pkix.RDNSequence
 					_, err = asn1.Unmarshal(value.Bytes, &name)
 					if err != nil {
